@@ -815,6 +815,20 @@ func c19Stream(o *Out, rng *rand.Rand, n int) {
 	for _, l := range []int{0, 1, 9, 10, 11, 99, 100, 101, 999, 1000, 4089, 4090, 4091, 4092, 4095, 4096, 4097, 8191, 8192, 8193, 65535, 65536, 99999, 100000} {
 		c19Round(o, "corpus-string", bStr(c19RandBytes(rng, l)), rng.Int63())
 	}
+	// root strings ending (and starting) in every byte value: line terminators, blanks, NUL, digits, ':', 'e', 0xff ...
+	for b := 0; b < 256; b++ {
+		c19Round(o, "corpus-string-lastbyte", bStr([]byte{byte(b)}), rng.Int63())
+		c19Round(o, "corpus-string-lastbyte", bStr([]byte{'x', 'y', byte(b)}), rng.Int63())
+		if b%16 == 10 || b%16 == 13 || b == ' ' || b == 0 || b == '\t' {
+			c19Round(o, "corpus-string-lastbyte", bStr([]byte{byte(b), 'x', byte(b), byte(b)}), rng.Int63())
+			c19Round(o, "corpus-string-lastbyte", bStr(append(c19RandBytes(rng, 4094), byte(b), byte(b))), rng.Int63())
+			c19Dec(o, "corpus-decode", []byte{'1', ':', byte(b)})
+			c19Dec(o, "corpus-decode", []byte{'i', '5', 'e', byte(b)})
+			c19Dec(o, "corpus-decode", []byte{byte(b), 'i', '5', 'e'})
+			c19Dec(o, "corpus-decode", []byte{'2', ':', 'a', byte(b), byte(b)})
+			c19Dec(o, "corpus-decode", []byte{'l', 'e', byte(b)})
+		}
+	}
 	c19Round(o, "corpus-nested", bList(), 1)
 	c19Round(o, "corpus-nested", bDict(), 1)
 	c19Round(o, "corpus-nested", bDict(bkv{[]byte{}, bStr(nil)}), 1)
